@@ -30,7 +30,21 @@ fn note(name: &'static str, a: u64, b: u64) {
     EVENTS.lock().unwrap().push((kind, a, b));
 }
 
+// directed case "late cache fill": one marked reader is held right after its device read
+thread_local! { static HELD_READER: std::cell::Cell<bool> = const { std::cell::Cell::new(false) }; }
+static HOLD: Mutex<(bool, bool)> = Mutex::new((false, false)); // (reader is parked, reader may go on)
+static HOLD_CV: std::sync::Condvar = std::sync::Condvar::new();
+
 fn point(name: &'static str) {
+    if name == "c08_unpinned" && HELD_READER.with(|h| h.get()) {
+        let mut g = HOLD.lock().unwrap();
+        g.0 = true;
+        HOLD_CV.notify_all();
+        while !g.1 {
+            g = HOLD_CV.wait(g).unwrap();
+        }
+        return;
+    }
     if !name.starts_with("c08_") || !SLEEPS_ON.load(Ordering::Relaxed) {
         return;
     }
@@ -111,6 +125,86 @@ fn err_name(e: &FeoxError) -> String {
     }
 }
 
+/// Directed (C08 recency, C16): a reader is held between its device read of generation OLD and the
+/// moment it returns (and fills the cache); meanwhile the key is updated to NEW of the same length
+/// and NEW is flushed.  After the late cache fill, TTL-only rewrites and reads must keep giving NEW,
+/// also after a flush and a restart.
+fn directed_late_cache_fill(dir: &str, sh: u64) -> (String, String) {
+    let path = format!("{dir}/dev/race_late_{sh}.feox");
+    let _ = std::fs::remove_file(&path);
+    *HOLD.lock().unwrap() = (false, false);
+    let open = || FeoxStore::builder().device_path(path.clone()).file_size(96 * 4096).hash_bits(6).enable_caching(true).enable_ttl(true).no_memory_limit().build();
+    let run = || -> Result<(), String> {
+        let store = Arc::new(open().map_err(|e| format!("cannot-create-store {e}"))?);
+        let key = key_of(77);
+        let (old, new) = (value_of(77, 1, 5000), value_of(77, 2, 5000));
+        store.insert(&key, &old).map_err(|e| format!("insert {e}"))?;
+        store.flush().map_err(|e| format!("flush {e}"))?;
+        let reader = {
+            let (store, key) = (store.clone(), key.clone());
+            std::thread::spawn(move || {
+                HELD_READER.with(|h| h.set(true));
+                store.get(&key)
+            })
+        };
+        {
+            let mut g = HOLD.lock().unwrap();
+            let t0 = std::time::Instant::now();
+            while !g.0 {
+                if t0.elapsed() > Duration::from_secs(10) {
+                    // the value was still resident: nothing to hold; let the case pass as not applicable
+                    g.1 = true;
+                    HOLD_CV.notify_all();
+                    drop(g);
+                    let _ = reader.join();
+                    return Ok(());
+                }
+                g = HOLD_CV.wait_timeout(g, Duration::from_millis(50)).unwrap().0;
+            }
+        }
+        // (the held reader still has the device's read lock: the update completes in memory only)
+        store.insert(&key, &new).map_err(|e| format!("update {e}"))?;
+        {
+            let mut g = HOLD.lock().unwrap();
+            g.1 = true;
+            HOLD_CV.notify_all();
+        }
+        match reader.join() {
+            Ok(Ok(v)) if v == old || v == new => {}
+            Ok(Ok(_)) => return Err("held-reader-returned-bytes-never-written".into()),
+            Ok(Err(e)) => return Err(format!("held-reader-error {e}")),
+            Err(_) => return Err("held-reader-panicked".into()),
+        }
+        // NEW becomes durable and is offloaded; nobody reads it before the TTL-only rewrites
+        store.flush().map_err(|e| format!("flush {e}"))?;
+        for step in 0..3 {
+            match step {
+                0 => store.update_ttl(&key, 7200).map_err(|e| format!("update_ttl {e}"))?,
+                1 => store.persist(&key).map_err(|e| format!("persist {e}"))?,
+                _ => store.flush().map_err(|e| format!("flush {e}"))?,
+            }
+            let got = store.get(&key).map_err(|e| format!("get-after-ttl-rewrite {e}"))?;
+            if got != new {
+                return Err(format!("read-after-a-TTL-only-rewrite-returned-a-superseded-generation step={step} got={}", if got == old { "OLD" } else { "other bytes" }));
+            }
+        }
+        drop(store);
+        let store = open().map_err(|e| format!("cannot-reopen {e}"))?;
+        let got = store.get(&key).map_err(|e| format!("get-after-restart {e}"))?;
+        if got != new {
+            return Err("restart-brought-back-a-superseded-generation".into());
+        }
+        Ok(())
+    };
+    let verdict = match std::panic::catch_unwind(std::panic::AssertUnwindSafe(run)) {
+        Ok(Ok(())) => "ok".to_string(),
+        Ok(Err(e)) => format!("FAIL {e}"),
+        Err(_) => "FAIL an-api-call-panicked".to_string(),
+    };
+    let _ = std::fs::remove_file(&path);
+    ("note race directed=late-cache-fill".to_string(), verdict)
+}
+
 pub fn racechild(opts: &Opts) -> i32 {
     let dir = opts.str("out", "/verif/.build/cases/race");
     let sh = opts.u64("shard", 0);
@@ -125,6 +219,10 @@ pub fn racechild(opts: &Opts) -> i32 {
     let mut rng = Rng::new(seed.wrapping_mul(2_147_483_647).wrapping_add(sh * 977));
     let path = format!("{dir}/dev/race_{sh}.feox");
     std::fs::create_dir_all(format!("{dir}/dev")).unwrap();
+    if sh < 2 {
+        let (case, verdict) = directed_late_cache_fill(&dir, sh);
+        out.emit3(&case, "note", &verdict);
+    }
     let mut summary = std::collections::BTreeMap::<String, u64>::new();
     for _case in 0..n {
         let _ = std::fs::remove_file(&path);
@@ -134,7 +232,11 @@ pub fn racechild(opts: &Opts) -> i32 {
         let nkeys = if tight { rng.range(2, 4) } else { rng.range(3, 6) };
         let blocks = if tight { 16 + nkeys * 2 + rng.range(0, 1) } else { rng.range(44, 72) };
         let cache = !tight && rng.chance(1, 2);
-        let ttl = tight || rng.chance(1, 2);
+        // with the cache on, two thirds of the runs give every key one value length for all its
+        // generations and always have TTL: a cache entry of a superseded generation then differs from the
+        // current one in identity only
+        let samelen = cache && rng.chance(2, 3);
+        let ttl = tight || samelen || rng.chance(1, 2);
         let nwriters = rng.range(1, 2);
         let nreaders = rng.range(2, 3);
         let wops = if tight { rng.range(30, 60) } else { rng.range(60, 140) };
@@ -198,7 +300,14 @@ pub fn racechild(opts: &Opts) -> i32 {
                     let k = *rng.pick(&mine);
                     // tight devices: TTL-only rewrites and flushes dominate, so that deferred generations
                     // (bytes only in the predecessor's extent) meet a full device
-                    let kind = if tight { *rng.pick(&[10u64, 70, 80, 80, 80, 80, 80, 80, 90, 90, 90, 90, 97, 99, 99]) } else { rng.below(100) };
+                    let kind = if tight {
+                        *rng.pick(&[10u64, 70, 80, 80, 80, 80, 80, 80, 90, 90, 90, 90, 97, 99, 99])
+                    } else if samelen {
+                        let any = rng.below(100);
+                        *rng.pick(&[10u64, 10, 10, 10, 80, 80, 80, 90, 90, 90, 97, any])
+                    } else {
+                        rng.below(100)
+                    };
                     if kind < 62 {
                         let len = match if tight { 2 } else { rng.below(5) } {
                             0 => rng.range(40, 300),
@@ -207,6 +316,7 @@ pub fn racechild(opts: &Opts) -> i32 {
                             3 => rng.range(7000, 8100),
                             _ => rng.range(8200, 12200),
                         } as usize;
+                        let len = if samelen { 4200 + 37 * k as usize } else { len };
                         let g = gens[k as usize] + 1;
                         let v = value_of(k, g, len);
                         let (t0, inv) = (us(), clock.fetch_add(1, Ordering::SeqCst));
